@@ -6,7 +6,7 @@ import itertools
 
 import numpy as np
 
-from .. import gen_core, gen_ioapi, refsel, snapshot
+from .. import gen_core, gen_ioapi, harness, refsel, snapshot
 from ..cli import digest
 
 PROP = 'C02'
@@ -127,6 +127,8 @@ def gen(rng, idx, tier, seed):
     order = rng.permutation(len(sel))
     sel = [sel[i] for i in order]
     spec = {'file': fs, 'sel': sel}
+    # the receiver is a file on disk (saved, opened again)
+    spec['disk'] = bool(idx % 5 == 1 and not spec.get('form'))
     lists = [s_ for _, s_ in sel if 'l' in s_]
     if lists and rng.random() < 0.4:
         # index lists handed over as integer arrays; one array OBJECT serves
@@ -153,6 +155,11 @@ def slice_string(d, s):
 
 
 def run(spec, res):
+    with harness.casedir() as d, harness.handles() as h:
+        run_in(spec, res, d, h)
+
+
+def run_in(spec, res, d, h):
     ioapi = 'ioapi' in spec['file']
     f = gen_ioapi.build(spec['file']['ioapi']) if ioapi else \
         gen_core.build(spec['file'])
@@ -163,6 +170,11 @@ def run(spec, res):
         f.variables[k0].long_name = 'Descriptive name'
         f.variables[k0].var_desc = 'free text about the variable'.ljust(80)
         res.facet('ioapi:custom-long_name')
+    if spec.get('disk'):
+        g = harness.to_disk(f, d, h, fmt='ioapi' if ioapi else 'netcdf')
+        if g is not None:
+            f = g
+            res.facet('source:disk')
     before = snapshot.snap_file(f)
     seld = {d: s for d, s in spec['sel']}
     kw = {d: refsel.dec_sel(s) for d, s in spec['sel']}
@@ -255,9 +267,12 @@ def run(spec, res):
                                     got.data[:, :1, :].tolist()[:6],
                                     edata[:, :1, :].tolist()[:6]))
             continue
-        problems += snapshot.check_var(got, name, dims=edims, data=edata,
-                                       mask=emask, attrs=vs.attrs,
-                                       dtype=vs.dtype)
+        problems += snapshot.check_var(
+            got, name, dims=edims, data=edata, mask=emask, attrs=vs.attrs,
+            dtype=vs.dtype,
+            # _FillValue is how a file on disk encodes the mask
+            attr_ignore=['_FillValue', 'fill_value'] if spec.get('disk')
+            else [])
     for name in out.variables.keys():
         if name not in before.vars:
             problems.append('unexpected variable %s in result' % name)
